@@ -67,7 +67,9 @@ def plan_fault_histories(case: dict, ref: dict) -> list[list[dict]]:
     dirs = sorted(k for k, v in ref["out_tree"].items() if v.get("dir"))
     files = sorted(k for k, v in ref["out_tree"].items() if "sha" in v)
     if dirs and r.random() < 0.7:
-        hs.append([{"sigma": {}, "prepop_files": {r.choice(dirs): "obstruction\n"}, "role": "obstructed"}])
+        top_dirs = [d for d in dirs if "/" not in d]
+        pick = r.choice(top_dirs) if top_dirs and r.random() < 0.4 else r.choice(dirs)
+        hs.append([{"sigma": {}, "prepop_files": {pick: "obstruction\n"}, "role": "obstructed"}])
     elif files:
         hs.append([{"sigma": {}, "prepop_dirs": [r.choice(files)], "role": "obstructed"}])
     return hs
